@@ -43,6 +43,14 @@ fn corpus() -> Vec<(Vec<&'static str>, Vec<&'static str>, Vec<&'static str>, Vec
         (vec!["a > e / _#"], vec!["ła.ña", "ɬa.ɲa", "¢a t͡sa", "t͡sa ¢a"], vec![], vec![]),
         (vec!["V > [+nasal] / _#"], vec!["'ka:", "ˈkaː", "ka:", "ka;"], vec![], vec![]),
         (vec!["t > d"], vec!["ta", "ta", "ta51", "ˈta"], vec![], vec![]),
+        // calls that fail: the error value and the message shown for it (with its "did you mean" hint and caret line) are results too
+        (vec!["[+voic] > [-voice]"], vec!["pa"], vec![], vec![]),
+        (vec!["a > e", "[+labiodentall] > [+voice] / _#"], vec!["pa"], vec![], vec![]),
+        (vec!["a > [+nasl]"], vec!["pa"], vec![], vec![]),
+        (vec!["a > e"], vec!["pa"], vec![], vec!["[+constrictedglotis] > q"]),
+        (vec!["a > e"], vec!["pa"], vec!["q > a:[+nasl]"], vec!["[+rnd] > o"]),
+        (vec!["a > e"], vec!["pa", "p#a"], vec![], vec![]),
+        (vec!["{p,t} > {b}", "% > a"], vec!["pa.ta"], vec![], vec![]),
     ]
 }
 
@@ -73,13 +81,29 @@ fn observe(k: usize, reverse: bool) -> Vec<String> {
     out
 }
 
+/// a result as text: Ok list, or the error's Debug form plus the message a user is shown for it
+fn show_result(x: &Result<Vec<String>, asca::Error>, g: &[asca::RuleGroup], ws: &[String], into: &[String], from: &[String]) -> String {
+    use asca::ASCAError;
+    match x {
+        Ok(v) => format!("Ok({:?})", v),
+        Err(e) => {
+            let shown = match e {
+                asca::Error::RuleSyn(_) | asca::Error::RuleRun(_) => guarded(1_000_000, || e.format_rule_error(g)),
+                asca::Error::AliasSyn(_) | asca::Error::AliasRun(_) => guarded(1_000_000, || e.format_alias_error(into, from)),
+                _ => guarded(1_000_000, || e.format_word_error(ws)),
+            };
+            format!("Err({:?}) message=[{}] shown=[{}]", e, e.get_error_message().replace('\n', " | "), match shown { Out::Ok(t) => t.replace('\n', " | "), o => o.crash_sig().unwrap() })
+        }
+    }
+}
+
 fn corpus_line(ci: usize, c: &(Vec<&'static str>, Vec<&'static str>, Vec<&'static str>, Vec<&'static str>)) -> String {
     let (rules, words, into, from) = c;
     let g: Vec<asca::RuleGroup> = rules.iter().map(|r| group(&[r])).collect();
     let ws: Vec<String> = words.iter().map(|s| s.to_string()).collect();
     let i: Vec<String> = into.iter().map(|s| s.to_string()).collect(); let f: Vec<String> = from.iter().map(|s| s.to_string()).collect();
     let r = guarded(5_000_000, || asca::run(&g, &ws, &i, &f));
-    format!("corpus|{}\t{}", ci, match r { Out::Ok(x) => format!("{:?}", x), o => o.crash_sig().unwrap() })
+    format!("corpus|{}\t{}", ci, match r { Out::Ok(x) => show_result(&x, &g, &ws, &i, &f), o => o.crash_sig().unwrap() })
 }
 
 pub fn worker(args: &[String]) -> i32 {
@@ -102,7 +126,7 @@ fn in_process(r: &mut Report) {
         let (rules, _, into, from) = &cs[ci];
         let g: Vec<asca::RuleGroup> = rules.iter().map(|r| group(&[r])).collect();
         let i: Vec<String> = into.iter().map(|s| s.to_string()).collect(); let f: Vec<String> = from.iter().map(|s| s.to_string()).collect();
-        match guarded(5_000_000, || asca::run(&g, words, &i, &f)) { Out::Ok(x) => format!("{:?}", x), o => o.crash_sig().unwrap() }
+        match guarded(5_000_000, || asca::run(&g, words, &i, &f)) { Out::Ok(x) => show_result(&x, &g, words, &i, &f), o => o.crash_sig().unwrap() }
     };
     for ci in 0..cs.len() {
         let ws: Vec<String> = cs[ci].1.iter().map(|s| s.to_string()).collect();
